@@ -45,7 +45,7 @@ def _install():
 def generate_process(r):
     proc = c02nd.generate_process(r)
     proc["margins"] = proc["margins"][:2]
-    proc["grid"]["n"] = r.choice([4, 6])
+    proc["grid"] = {"kind": "fixed", "h": proc["grid"]["h"], "n": r.choice([4, 6])}
     proc["kind"] = r.choice(["copula", "copula_coupling"])
     return proc
 
